@@ -274,6 +274,14 @@ def main(argv=None):
         return 0
 
     directed = list(getattr(mod, "directed_cases", lambda tier: [])(args.tier))
+    # minimised histories of defects that were found and repaired: replayed on
+    # every run so that a regression is reported again
+    rdir = os.path.join(common.VERIF_DIR, "regressions")
+    if os.path.isdir(rdir):
+        for fn in sorted(os.listdir(rdir)):
+            if fn.startswith(pid + "-") and fn.endswith(".json"):
+                with open(os.path.join(rdir, fn)) as f:
+                    directed.append(json.load(f)["case"])
     cases = {}
 
     batch_n = max(1, int(plan.get("batch", 1)))
@@ -293,7 +301,9 @@ def main(argv=None):
     results = []
     violations = []
     harness_errors = []
-    stop = lambda: (time.monotonic() - t0) > wall_budget or len(violations) >= 5 or len(harness_errors) >= 5
+    known = load_known(pid)
+    new_count = [0]
+    stop = lambda: (time.monotonic() - t0) > wall_budget or new_count[0] >= 5 or len(harness_errors) >= 5
     nproc = plan.get("nproc")
     for idx0, r in parallel_map(items(), nproc=nproc, timeout=timeout * (1 + batch_n / 4.0), stop=stop):
         if r.status != "ok":
@@ -303,6 +313,8 @@ def main(argv=None):
             results.append((idx, cases[idx], val))
             if val["violation"] is not None:
                 violations.append((idx, cases[idx], val))
+                if match_known(known, val["violation"]) is None:
+                    new_count[0] += 1
     results.sort(key=lambda t: t[0])
     violations.sort(key=lambda t: t[0])
 
@@ -316,7 +328,6 @@ def main(argv=None):
     if mismatches:
         print("HARNESS-WARNING nondeterministic cases (digest differs on re-run): %s" % sorted(mismatches))
 
-    known = load_known(pid)
     rc = 0
     reported_kinds = set()
     known_hit = {}
